@@ -90,10 +90,21 @@ def fresh_of_type(interp, t, name):
     raise OutOfSubset("unknown type %r in contract" % t)
 
 
+CUSTOM_SEQ_TYPES = {}
+
+
+def register_seq_type(name, fn):
+    """fn(interp, base_name, k) -> element k of a fresh sequence of that element type"""
+    CUSTOM_SEQ_TYPES[name] = fn
+
+
 def fresh_seq(interp, elem_t, name):
     length = z3.Int(fresh_name(name + ".len"))
     interp.path.assume(length >= 0)
     base = fresh_name(name)
+    if elem_t in CUSTOM_SEQ_TYPES:
+        fn = CUSTOM_SEQ_TYPES[elem_t]
+        return SymSeq(length, lambda k, fn=fn, base=base: fn(interp, base, z3k(k)), name)
     if elem_t in ("int", "nat"):
         f = z3.Function(base, z3.IntSort(), z3.IntSort())
         return SymSeq(length, lambda k, f=f: f(z3k(k)), name)
